@@ -8,6 +8,8 @@ from ..contracts import graph_ops as G
 from ..core import Report, src_info
 from ..e3 import derive
 from ..par import pmap
+from ..pyvc.world import World
+from . import e1_derive
 
 
 def run(tier, seed):
@@ -18,12 +20,17 @@ def run(tier, seed):
     tasks = [("ob_role_query", (c, q, timeout)) for q in G.ROLE_QUERIES for c in ("CondensedReactionGraph", "StereoCondensedReactionGraph")]
     for obs, _ in pmap("vf.props.e1_graph", tasks):
         rep.obs.extend(obs)
+    # reverse_reaction of both classes against its contract (vf/contracts/derive_ops.py) with loop invariants, one task per loop
+    for obs, _ in pmap("vf.props.e1_derive", e1_derive.tasks("C08", tier, timeout)):
+        rep.obs.extend(obs)
     derive.run_c08(rep, tier, seed)
-    rep.functions = [src_info("graphs/crg.py", f"CondensedReactionGraph.{q}") for q in G.ROLE_QUERIES]
+    rep.functions = [src_info("graphs/crg.py", f"CondensedReactionGraph.{q}") for q in G.ROLE_QUERIES] + e1_derive.functions(World(), "C08")
     proof = [o for o in rep.obs if o.kind == "proof"]
     rep.rule = "E1: one VC per (class, method, path, clause) incl. loop-invariant init / preservation; E3: random reactant/product/TS triples over the skeleton corpus; distinct_nontrivial = distinct triples"
     rep.trusted_base = ["pyvc encoding + symbolic heap", "z3 5.1"]
-    rep.assumptions = ["termination of the loops is not proved", "from_graphs / reactant / product / reverse_reaction are covered by the bounded part only"]
-    rep.explanation = f"{len(proof)} proof obligations on the three role queries; decomposition and reversal are bounded (coverage.bounded_groups)"
+    rep.assumptions = ["termination of the loops is not proved", "from_graphs / reactant / product are covered by the bounded part only",
+                       "'reversing twice restores an identical graph' follows from the proved contract of reverse_reaction (the role swap is an involution on the views); it is additionally evaluated by the bounded part",
+                       "assumed contract of copy.deepcopy (reverse_reaction starts from self.copy())"]
+    rep.explanation = f"{len(proof)} proof obligations on the three role queries and on reverse_reaction of both classes; decomposition is bounded (coverage.bounded_groups)"
     rep.samples = [o.name for o in proof[:: max(1, len(proof) // 6)]][:6]
     return rep, t0
